@@ -55,13 +55,14 @@ theorem C05_expiry (s : State) (f : Flight) (c : Nat)
     (ht : s.timers.contains s!"invoke:{c}" = true)
     (hf : s.flights.find? (fun f => s!"invoke:{f.caller}" == s!"invoke:{c}" && f.g0 == .selecting) = some f)
     (hn : s!"invoke:{c}" ≠ "rtDeadline" ∧ s!"invoke:{c}" ≠ "agDeadline" ∧ s!"invoke:{c}" ≠ "grace" ∧
+          s!"invoke:{c}" ≠ "restoreHook" ∧
           s!"invoke:{c}" ≠ "resetTail:0" ∧ s!"invoke:{c}" ≠ "resetTail:1" ∧ s!"invoke:{c}" ≠ "resetTail:2") :
     let s' := applyOp s (.timer s!"invoke:{c}")
     s'.queue = s.queue ++ [.reset "Timeout" 1] ∧ s'.cancelDone = true ∧
     (s'.resv.map (·.resetStarted)) = s.resv.map (fun _ => true) := by
-  obtain ⟨n1, n2, n3, n4, n5, n6⟩ := hn
+  obtain ⟨n1, n2, n3, n7, n4, n5, n6⟩ := hn
   simp only [applyOp, ht, Bool.not_true, Bool.false_eq_true, ↓reduceIte]
-  simp only [beq_iff_eq, n1, n2, n3, n4, n5, n6, ↓reduceIte]
+  simp only [beq_iff_eq, n1, n2, n3, n7, n4, n5, n6, ↓reduceIte]
   have hf' : List.find? (fun f => s!"invoke:{f.caller}" == s!"invoke:{c}" && f.g0 == G0PC.selecting)
       ({ s with timers := s.timers.filter (· != s!"invoke:{c}") }).flights = some f := hf
   simp only [hf']
